@@ -62,6 +62,15 @@ def run(run):
     im = core.run_impl(reqs)
     mo = core.run_model(reqs)
     dis += stmt.tie(run, "spellings", reqs, mo, im, [r for m in meta for r in (m[1], m[2])])
+    # the dialect is honoured by every entry point of every shipped parser class: the MyBatis plug-in parser on the same texts (no '#' in them)
+    mbi = list(range(0, len(reqs), 5 if tier_q else 2))
+    mbreq = [reqs[i].replace("PARSE 0 ", "PARSE 1 ", 1) for i in mbi]
+    mbim = core.run_impl(mbreq)
+    dis += stmt.tie(run, "spellings (MyBatis plug-in parser)", mbreq, core.run_model(mbreq), mbim, [meta[i // 2][1 + i % 2] for i in mbi])
+    for i, a, rq in zip(mbi, mbim, mbreq):
+        if a != im[i] and "#" not in meta[i // 2][1 + i % 2]:
+            fails.append({"kind": "input", "stream": "spellings", "text": meta[i // 2][1 + i % 2], "neutral": meta[i // 2][2], "dialect": meta[i // 2][0], "request": rq, "request2": reqs[i],
+                          "oracle_verdict": "SQLParserMyBatis does not honour the dialect like SQLParser: %s vs %s" % (a[:160], im[i][:160])})
     n_eq = 0
     for i, (d, ta, tb) in enumerate(meta):
         xa, xb = im[2 * i], im[2 * i + 1]
@@ -105,6 +114,14 @@ def run(run):
              "ALTER TABLE t MODIFY b DATETIME NOT NULL ON UPDATE CURRENT_TIMESTAMP COMMENT 'm'", "ALTER TABLE t ADD c2 DECIMAL(10, 2) UNSIGNED DEFAULT 0",
              "CREATE TABLE h (a STRING COMMENT 'x', b DECIMAL(10,2)) COMMENT 'h' PARTITIONED BY (dt STRING COMMENT 'p') ROW FORMAT SERDE 's' STORED AS TEXTFILE LOCATION '/p' TBLPROPERTIES ('k'='v')",
              "SELECT a FROM t WHERE d < CURRENT_DATE ORDER BY CURRENT_TIMESTAMP", "SELECT 1 FROM t WHERE a BETWEEN CURRENT_DATE AND b GROUP BY CURRENT_TIME"]
+    base += ["SELECT a FROM t ORDER BY a LIMIT 3, 7", "SELECT a FROM t LIMIT 7 OFFSET 3", "UPDATE t SET a = 1 WHERE b = 2 ORDER BY c LIMIT 2", "DELETE FROM t WHERE a = 1 ORDER BY b LIMIT 5",
+             "SELECT a FROM (SELECT b FROM u ORDER BY b DESC LIMIT 1, 2) x WHERE a IN (SELECT c FROM v LIMIT 4 OFFSET 9)", "SELECT a FROM t UNION ALL SELECT b FROM u LIMIT 2, 3",
+             "WITH w AS (SELECT a FROM t LIMIT 5, 6) SELECT a FROM w GROUP BY a WITH ROLLUP HAVING a > 1", "SELECT a, count(DISTINCT b) FROM t GROUP BY a, GROUPING SETS ((a), ())",
+             "SELECT a <=> b, a DIV b, a MOD b, a XOR b, NOT a, a IS NOT NULL, a NOT LIKE 'x', a RLIKE 'y', a REGEXP 'z' FROM t",
+             "SELECT cast(a AS DECIMAL(10, 2)), extract(YEAR FROM b), IF(a, 1, 2), substring(c FROM 1 FOR 2) FROM t FULL OUTER JOIN u USING(a) CROSS JOIN v",
+             "SELECT sum(a) OVER (PARTITION BY b ORDER BY c DESC NULLS LAST ROWS BETWEEN 1 PRECEDING AND CURRENT ROW) FROM t",
+             "INSERT INTO t (a, b) VALUES (1, 'x'), (2, 'y')", "INSERT OVERWRITE TABLE t PARTITION (dt = '1', h) SELECT a, h FROM u", "SHOW COLUMNS FROM t WHERE a = 1",
+             "TRUNCATE TABLE t", "MSCK REPAIR TABLE t", "USE db", "SET a.b = c-d", "DROP TABLE IF EXISTS s.t", "ANALYZE TABLE t PARTITION (dt='1') COMPUTE STATISTICS FOR COLUMNS NOSCAN"]
     g = stgen.G(run.rng)
     base += [g.create_table()[0] for _ in range(8 if tier_q else 60)] + [g.alter()[0] for _ in range(4 if tier_q else 30)]
     extra = [s for _, s in stmt.gen_cases(run, ["HIVE", "MYSQL"], 20 if tier_q else 400, with_corpus=False)]
